@@ -123,6 +123,16 @@ def run(ctx):
             if d >= 3:
                 first = F.dense(teneva.ANOVA(I, y, order=2, seed=1).cores(r=6, noise=0.))       # a fresh object's answer
                 ao = teneva.ANOVA(I, y, order=2, seed=1)
+                # other methods of the object in between: drawing samples from the model, evaluating it
+                import io, contextlib
+                with contextlib.redirect_stdout(io.StringIO()):
+                    for _ in range(2):
+                        try:
+                            ao.sample()
+                            ao.sample(with_square=True)
+                            ao(ao.sample())
+                        except Exception:
+                            pass
                 for kw_ in ([dict(r=6, only_near=True), dict(r=2)] if len(smp) % 2 else [dict(r=2), dict(r=6), dict(r=6, only_near=True), dict(r=3)]):
                     try:
                         ao.cores(noise=0., **kw_)        # (only_near itself is outside the property: on the pinned tree it
